@@ -199,3 +199,77 @@ Proof.
   split; [hist_tac|]. split; [vm_compute; reflexivity|].
   repeat split; vm_compute; reflexivity.
 Qed.
+
+(* ---- the oracle of the C04 check (Spec/HistObs.v) and C04_partial ----
+   Every run of the check evaluates, per torn image, the case (events, observations) with events =
+   the history so far, `HEv (EvTornFlush W)`, a read-back of every table, and `model_agrees` (Go's
+   observations equal run_h's) and the strict oracle `spec_accepts_strict` (a torn flush changes
+   nothing the specification can see: every table holds exactly what the acknowledged statements
+   put there, ids never reused, recovery does not fail). Agreement implies acceptance
+   (Proofs/OracleTorn.v) for EVERY case built from statements, flushes, crash-restarts, torn flushes,
+   crashes inside a log append, read-backs and page dumps, under boolean hypotheses on the events:
+   those of C01 (C01full.v) and `torn_ok`: every `EvTornFlush W` is one for which the model has a
+   torn file (the in-place case of C04_partial; for any other W the model's step fails, run_h ends
+   with [HOut (OBerr EUnmodelled); HDead] and the oracle REJECTS that - OracleTorn.
+   oracle_needs_torn_defined; the check leaves those images to the recorded finding F15), and every
+   `EvCrashInLog st j` is as in C03_agreement_implies_acceptance. *)
+From Mkdb Require Import Spec.HistObs Proofs.OracleSound Proofs.OracleCrash Proofs.OracleTorn.
+
+Theorem C04_agreement_implies_acceptance : forall c,
+  forallb hev_ok (fst c) = true -> forallb hev_stmt_shape (fst c) = true ->
+  frontier_ok init_sys (fst c) = true -> reads_cover [] [] [] (fst c) = true ->
+  forallb strict_hev (fst c) = true -> torn_ok init_sys (fst c) = true ->
+  model_agrees c = true -> spec_accepts_strict c = true.
+Proof. exact agreement_implies_strict_acceptance_torn. Qed.
+Print Assumptions C04_agreement_implies_acceptance.
+
+Theorem C04_oracle_accepts_model : forall hevs,
+  forallb hev_ok hevs = true -> forallb hev_stmt_shape hevs = true ->
+  frontier_ok init_sys hevs = true -> reads_cover [] [] [] hevs = true ->
+  forallb strict_hev hevs = true -> torn_ok init_sys hevs = true ->
+  spec_accepts_strict (hevs, run_h init_sys hevs) = true.
+Proof. exact model_passes_oracle_torn_strict. Qed.
+Print Assumptions C04_oracle_accepts_model.
+
+(* non-vacuity: ex_inplace (two tables, t with an internal root; after the flush an insert, an
+   update and a delete on t and an insert on u are only in the cache and the log), a torn flush that
+   writes t's rightmost leaf and u's leaf but not t's first leaf, read-back, a further insert, a
+   second torn flush that writes nothing, a refused INSERT, a crash-restart, read-back *)
+Definition hx_torn : list hevent :=
+  map HEv ex_inplace ++
+  [HReadTables ["t"; "u"];
+   HEv (EvTornFlush [16384; 24576]%N);
+   HReadTables ["t"; "u"];
+   HEv (ins "u" 3);
+   HEv (EvTornFlush []);
+   HEv (EvStmt (SInsert "t" [] [[VInt 2147483648]]));
+   HEv EvCrash;
+   HReadTables ["t"; "u"; "sys_pages"]].
+
+Example C04_agreement_nonvacuous :
+  forallb hev_ok hx_torn = true /\ forallb hev_stmt_shape hx_torn = true /\
+  frontier_ok init_sys hx_torn = true /\ reads_cover [] [] [] hx_torn = true /\
+  forallb strict_hev hx_torn = true /\ torn_ok init_sys hx_torn = true /\ hist_shape_c hx_torn = false /\
+  model_agrees (hx_torn, run_h init_sys hx_torn) = true /\
+  spec_accepts_strict (hx_torn, run_h init_sys hx_torn) = true /\
+  skipn 19 (map (fun o => match o with HOut x => Some x | _ => None end) (run_h init_sys hx_torn)) =
+    [None; Some OBok; None; Some OBok; Some OBok; Some (OBerr EIntRange); Some OBok; None] /\
+  (* the read-backs before and after the first torn flush are equal *)
+  nth 19 (run_h init_sys hx_torn) HNone = nth 21 (run_h init_sys hx_torn) HNone /\
+  match nth 21 (run_h init_sys hx_torn) HNone with
+  | HTables [(_, TRows _ r1); (_, TRows _ r2)] => (List.length r1, List.length r2) = (11%nat, 2%nat)
+  | _ => False
+  end.
+Proof. vm_compute. repeat split; reflexivity. Qed.
+
+(* the oracle is not the constant true on such cases: a recovery after the torn flush that lost the
+   row only the cache and the log had (u's second row), or that fails, is rejected *)
+Definition hx_torn_short : list hevent := map HEv ex_inplace ++ [HEv (EvTornFlush [16384]%N); HReadTables ["u"]].
+Example C04_oracle_rejects :
+  run_h init_sys hx_torn_short =
+    firstn 19 (run_h init_sys hx_torn_short) ++ [HOut OBok; HTables [("u", TRows ["b"] [(24, [VInt 1]); (26, [VInt 2])]%N)]] /\
+  spec_accepts_strict (hx_torn_short, run_h init_sys hx_torn_short) = true /\
+  spec_accepts_strict (hx_torn_short,
+    firstn 19 (run_h init_sys hx_torn_short) ++ [HOut OBok; HTables [("u", TRows ["b"] [(24%N, [VInt 1])])]]) = false /\
+  spec_accepts_strict (hx_torn_short, firstn 19 (run_h init_sys hx_torn_short) ++ [HOut (OBerr ECorrupt); HDead]) = false.
+Proof. vm_compute. repeat split; reflexivity. Qed.
